@@ -1,4 +1,4 @@
-//go:build verif
+//go:build verif && !noasm
 
 // Package pipe drives the two-stage pipeline of the real parser under forced
 // and free schedules through the verif hooks, and records hand-off traces.
